@@ -67,19 +67,23 @@ def gstep (s : Graph) : Op → Graph × Out
   | .setclass slot n => gwithSlot s slot fun g =>
       if g.access ≠ accW then (g, .fail) else ({ g with cls := some (cstr n) }, .ok)
   | .addtagref slot t r => gwithSlot s slot fun g =>
-      ({ g with members := g.members ++ [(t % 65536, r % 65536)] }, .int (g.members.length + 1))
+      -- a Vgroup holds at most MAX_REF = 65535 members
+      if g.members.length = MAX_REF then (g, .fail)
+      else ({ g with members := g.members ++ [(t % 65536, r % 65536)] }, .int (g.members.length + 1))
   | .insertvg slot slot2 =>
     match alook slot2 s.slots with
     | none => (s, .fail)
     | some r2 => gwithSlot s slot fun g =>
       if g.access ≠ accW then (g, .fail)
       else if g.members.contains (DFTAG_VG, r2 % 65536) then (g, .fail)
+      else if g.members.length = MAX_REF then (g, .fail)
       else ({ g with members := g.members ++ [(DFTAG_VG, r2 % 65536)] }, .int g.members.length)
   | .insertvs slot vsref =>
     if ¬ s.vds.contains vsref then (s, .fail) else
     gwithSlot s slot fun g =>
       if g.access ≠ accW then (g, .fail)
       else if g.members.contains (DFTAG_VH, vsref % 65536) then (g, .fail)
+      else if g.members.length = MAX_REF then (g, .fail)
       else ({ g with members := g.members ++ [(DFTAG_VH, vsref % 65536)] }, .int g.members.length)
   | .deltagref slot t r => gwithSlot s slot fun g =>
       if (t % 65536, r % 65536) ∈ g.members then ({ g with members := g.members.erase (t % 65536, r % 65536) }, .ok)
@@ -125,17 +129,12 @@ def gstep (s : Graph) : Op → Graph × Out
   | .findclass n => (s, findBy (·.cls) n s.vgs)
 
 /-- admissibility of one operation in a reference state (decidable; the hypotheses of the refinement theorem):
-    * the uint16 member counter must not be driven to its limit (the excluded point is `nvelt_wrap_loses_members`);
+    (no bound on member counts any more: since /repo dc883d2 an insertion into a full Vgroup fails cleanly, and the
+     reference model says so too)
     * names fit the 16-bit length field of the record;
     * a Vgroup is deleted only while no handle is attached to it (C frees the `VGROUP` the handle points to);
     * `Vend`/`Vstart` happen with every handle detached (changes of attached Vgroups are only written by `Vdetach`). -/
 def admissible (s : Graph) : Op → Bool
-  | .addtagref slot _ _ | .insertvg slot _ | .insertvs slot _ =>
-    match alook slot s.slots with
-    | none => true
-    | some r => match alook r s.vgs with
-      | none => true
-      | some g => g.members.length < 65535
   | .setname _ n | .setclass _ n => (cstr n).length < 65536
   | .setattr slot _ =>
     match alook slot s.slots with
